@@ -13,6 +13,7 @@
   * `EncJson.depth T` : the nesting depth of the schema, the fuel the Spec needs.
 -/
 import JSV.Proofs.InfSound
+import JSV.Proofs.InfEmbSound
 namespace JSV.C04
 open JSV Go EncJson Spec
 
@@ -80,6 +81,48 @@ theorem infer_sound_nil_pointer (opts : IOpts) (fuel : Nat) (T : GoType) (st : S
     Spec.valid (specEnvNoRefs st' re) fuel' id .null = some true :=
   infer_sound opts fuel (.ptr T) st id st' re hnfs hdom h .nilPtr trivial fuel' hf
 
+
+/-! ## embedded struct fields (`forTypeE`, JSV/Model/InferEmb.lean; json.Marshal: `EncJsonEmb.encodeE`) -/
+
+open EncJsonEmb in
+/-- **main, with embedded fields (partial)**: for a type of the domain `InDomainE` — `InDomain` plus embedded fields
+    that are untagged exported declared struct types, by value or by pointer, such that within every tree of embedded
+    structs the JSON name of a field is determined by its Go name and vice versa and no Go name occurs twice at one
+    depth (`namesOk`) — the schema `ForType` returns accepts the JSON encoding of every value of the type.  A value
+    of the type has non-nil embedded pointers (`HasTypeE`): through a nil embedded pointer json.Marshal leaves out the
+    promoted fields, the required ones included.
+
+    Partial, what is missing: (1) `hno`: no TypeSchemas entry at all (the full statement would only ask that the
+    *embedded* types have none; the types of the domain contain no other named types, so no other entry is ever
+    consulted); with an override of an embedded type the statement is false in general (the override replaces the
+    promoted properties by its own, and `additionalProperties: false` then rejects the promoted members);
+    (2) types outside `InDomainE`: D14 (a JSON name shared by two Go names), D16 (tagged / non-struct embedded
+    fields), named types in non-embedded positions (as in `infer_sound`). -/
+theorem infer_soundE_partial (opts : IOpts) (fuel : Nat) (T : GoTypeE) (st : Store) (id : NodeId) (st' : Store)
+    (re : String → String → Bool) (hnfs : opts.nullForSlices = true) (hno : ∀ nm, Json.lookup nm opts.schemas = none)
+    (hdom : InDomainE T = true) (h : forTypeE opts fuel T st = .ok (some id, st')) (v : GoValue) (hv : HasTypeE T v)
+    (fuel' : Nat) (hf : depthE T ≤ fuel') :
+    Spec.valid (specEnvNoRefs st' re) fuel' id (encodeE T v) = some true := by
+  obtain ⟨id', hid, hm⟩ := inferFuelE_models opts hno fuel T [] st (some id) st' hdom h
+  cases hid
+  rw [hnfs] at hm
+  exact valid_iff_isSome.1 ((soundE (re := re) (wt T) T (Nat.le_refl _) hdom false id hm fuel' [] hf).2 v hv)
+
+open EncJsonEmb in
+/-- on the domain `ForType` never drops the type -/
+theorem infer_someE (opts : IOpts) (fuel : Nat) (T : GoTypeE) (st : Store) (r : Option NodeId) (st' : Store)
+    (hdom : InDomainE T = true) (h : forTypeE opts fuel T st = .ok (r, st')) : ∃ id, r = some id :=
+  inferFuelE_some opts fuel T [] st r st' hdom h
+
+open EncJsonEmb in
+/-- the schema built for a type of the domain is the schema of the type with its embedded structs dissolved
+    (`flatten`: the fields of a struct are its live visible fields), in the sense of `Go.Models` -/
+theorem infer_models_flatten (opts : IOpts) (fuel : Nat) (T : GoTypeE) (st : Store) (id : NodeId) (st' : Store)
+    (hno : ∀ nm, Json.lookup nm opts.schemas = none) (hdom : InDomainE T = true)
+    (h : forTypeE opts fuel T st = .ok (some id, st')) : Models opts.nullForSlices st' (flatten T) false id := by
+  obtain ⟨id', hid, hm⟩ := inferFuelE_models opts hno fuel T [] st (some id) st' hdom h
+  cases hid
+  exact hm
 
 /-! ## what the hypotheses exclude (labelled tests) -/
 
